@@ -260,13 +260,18 @@ theorem resolvesAll_some (S : List Tm) (e : Tm) (w : String) (h : resolvesAll S 
   obtain ⟨r, hr, _⟩ := resolvesAll_ok S e w h
   exact ⟨r, hr⟩
 
+theorem obligationsOk_single (w : String) (sch : List Tm) (e : Tm) :
+    obligationsOk w [(sch, e)] = resolvesAll sch e w := by
+  simp only [obligationsOk]
+  cases resolvesAll sch e w <;> rfl
+
 /-- **`pushdown-proj-order` keeps accepted plans accepted** (for the repaired applier). -/
 theorem applyProjOrder_keeps_ok (es ks c : Tm)
     (hR : RefsProduced (schema c) (directSubsList [es, ks]))
     (h : check (.node .proj [es, .node .order [ks, c]]) = .ok) :
     check (applyProjOrder es ks c) = .ok := by
   -- what acceptance of the original plan says
-  simp only [check] at h
+  simp only [check, resolveObligations, obligationsOk_single] at h
   obtain ⟨h1, hes⟩ := Verdict.and_ok _ _ h
   obtain ⟨hc, hks⟩ := Verdict.and_ok _ _ h1
   have hes' := resolvesAll_some _ _ _ hes
@@ -285,7 +290,7 @@ theorem applyProjOrder_keeps_ok (es ks c : Tm)
   have hlist : ∃ r, resolve (schema c) (.node .list K) = some r :=
     resolve_node_of_list _ _ _ (resolveList_all _ K (fun k hk => kept_resolves [es, ks] c k hk))
   -- assemble
-  simp only [applyProjOrder, check, schema, listItems]
+  simp only [applyProjOrder, check, resolveObligations, obligationsOk_single, schema, listItems]
   rw [hc, resolvesAll_of _ _ _ hlist]
   simp only [Verdict.and]
   rw [resolvesAll_of _ _ _ hksK]
